@@ -150,6 +150,7 @@ def run(ctx):
             fc = json.loads(json.dumps(c))
             fc["id"] = len(fault_reads) + 100000
             fc["cfg"]["failat"] = k
+            fc["cfg"]["failkind"] = (k + len(fault_reads)) % 3
             fc["tag"] = {"hit": None, "base": c["tag"]["base"], "k": k}
             fault_reads.append(fc)
     frr, faults = fl.shard_run(b, "frame-read", fault_reads, d, "rf", extra=("--watchdog", "60s"))
